@@ -8,6 +8,7 @@ mod c03;
 mod c09;
 mod c10;
 mod c11;
+mod c12;
 mod c15;
 mod gallina;
 mod impls;
@@ -72,6 +73,7 @@ fn main() {
         "c09" => c09::run(&ctx),
         "c10" => c10::run(&ctx),
         "c11" => c11::run(&ctx),
+        "c12" => c12::run(&ctx),
         "c15" => c15::run(&ctx),
         other => {
             eprintln!("unknown property {other}");
